@@ -139,14 +139,37 @@ func genBSProgram(r *rand.Rand, n int) []string {
 	return prog
 }
 
-// checkBSHistory = checkHistory + "a read returns the contents written together with the version it returns".
+// checkBSHistory = checkHistory + "a read returns the contents written together with the version it returns" +
+// "two successful writes of different contents never return the same version" (a version that names two states makes
+// the conditional update blind to the write in between: ABA).
 func checkBSHistory(c *rig.Ctx, key, label string, ops []histOp, verDigest map[string]string) histStats {
-	st := checkHistory(c, key, label, ops, "", porcupineTimeout)
+	byVer := map[string]map[string]bool{}
+	reused := map[string]bool{}
 	for _, o := range ops {
-		if o.Kind != "read" || o.Val == "" {
+		if o.Kind == "cas" && o.OK && o.Err == "" {
+			if byVer[o.New] == nil {
+				byVer[o.New] = map[string]bool{}
+			}
+			byVer[o.New][o.Digest] = true
+			if len(byVer[o.New]) > 1 {
+				reused[o.New] = true
+			}
+		}
+	}
+	for v := range reused {
+		c.Count("c42.version_reused_by_distinct_successful_writes", 1)
+		c.Violation("c42/version-reuse/distinct-successful-writes-returned-the-same-version/"+strings.TrimPrefix(key, "c42/"),
+			fmt.Sprintf("%s: %d successful CheckAndPutManifest calls with different contents all returned version %q; a client that read the first contents can overwrite the later ones without noticing", label, len(byVer[v]), v),
+			map[string]any{"version": v, "ops": witnessOps(ops)})
+	}
+	quietDup = true
+	st := checkHistory(c, key, label, ops, "", porcupineTimeout)
+	quietDup = false
+	for _, o := range ops {
+		if o.Kind != "read" || o.Val == "" || reused[o.Val] {
 			continue
 		}
-		if dg, ok := verDigest[o.Val]; ok && dg != o.Digest {
+		if ds, ok := byVer[o.Val]; ok && !ds[o.Digest] {
 			c.Violation(key+"/read-contents-do-not-match-version", fmt.Sprintf("%s: Get returned version %q with contents that are not what the CheckAndPutManifest returning that version wrote", label, o.Val),
 				map[string]any{"ops": witnessOps(ops)})
 		}
@@ -212,6 +235,10 @@ func c42CAS(c *rig.Ctx) {
 	orders := map[string]bool{}
 	wins := 0
 	nMem, nLocal, nNBS := c.Pick(40, 1500), c.Pick(8, 300), c.Pick(8, 300)
+	if v := os.Getenv("VCAS_C42_LOCAL_ONLY"); v != "" { // triage knob: only LocalBlobstore CAS histories, v of them
+		fmt.Sscan(v, &nLocal)
+		nMem, nNBS = 0, 0
+	}
 	for i := 0; i < nMem; i++ {
 		r := c.SubRand("c42/inmem", i)
 		bs := blobstore.NewInMemoryBlobstore("")
@@ -780,11 +807,17 @@ func (g *gitRig) instance(maxPart uint64) (*blobstore.GitBlobstore, error) {
 	return blobstore.NewGitBlobstoreWithOptions(local, "refs/dolt/data", blobstore.GitBlobstoreOptions{MaxPartSize: maxPart, SyncForReadTTL: time.Nanosecond})
 }
 
-func c42GitBig(c *rig.Ctx) []int {
-	if c.Thorough() {
-		return []int{40, 1000, 100000}
+// c42GitBig: larger blob sizes for the git modes. Chunked mode names its parts with 4 digits ("0001".."9999"), and
+// production runs it with MaxPartSize = 50 MB (nbs.NewGitStore), so more than 9999 parts would be a 500 GB table file;
+// the harness's 7-byte parts must stay below that count (also for the concatenations of up to 3 of these blobs).
+func c42GitBig(c *rig.Ctx, part uint64) []int {
+	if !c.Thorough() {
+		return []int{40}
 	}
-	return []int{40}
+	if part > 0 {
+		return []int{40, 1000, int(part) * 3000}
+	}
+	return []int{40, 1000, 100000}
 }
 
 func c42Git(c *rig.Ctx) {
@@ -845,7 +878,7 @@ func c42Git(c *rig.Ctx) {
 			var gb *blobstore.GitBlobstore
 			gb, err = g.instance(mode.part)
 			if err == nil {
-				rangeAndConcat(c, mode.name, gb, r, []int{0, 3, 13}, int64(c.Pick(0, 5)), c.Pick(9, 150), c42GitBig(c), []int{3}, &rs)
+				rangeAndConcat(c, mode.name, gb, r, []int{0, 3, 13}, int64(c.Pick(0, 5)), c.Pick(9, 150), c42GitBig(c, mode.part), []int{3}, &rs)
 			}
 		}
 		if err != nil {
